@@ -2,6 +2,7 @@ package main
 
 import (
 	"encoding/json"
+	"math"
 	"math/big"
 	"strconv"
 	"strings"
@@ -297,6 +298,28 @@ func c14(r *mon.Run) {
 				}
 			}
 		}
+		// decimals of 14-18 significant digits with the point anywhere (where a mantissa-times-power-of-ten short cut rounds twice)
+		add("9.789293555766875")
+		dr := gen.DeriveN(1, "c14decimals", 0) // (a fixed list: it does not depend on the run's seed)
+		for k := 0; k < 400; k++ {
+			nd := 14 + dr.Intn(5)
+			b := make([]byte, 0, nd+1)
+			pt := 1 + dr.Intn(nd-1)
+			for q := 0; q < nd; q++ {
+				if q == pt {
+					b = append(b, '.')
+				}
+				c := byte('0' + dr.Intn(10))
+				if q == 0 && c == '0' {
+					c = '9'
+				}
+				b = append(b, c)
+			}
+			if !seen[string(b)] {
+				seen[string(b)] = true
+				numTexts = append(numTexts, string(b), "-"+string(b))
+			}
+		}
 		for _, k := range []uint{7, 8, 15, 16, 24, 31, 32, 52, 53, 62, 63, 64} {
 			b := new(big.Int).Lsh(big.NewInt(1), k)
 			for d := int64(-2); d <= 2; d++ {
@@ -349,7 +372,7 @@ func c14(r *mon.Run) {
 					}
 					continue
 				}
-				if o.Panicked || o.Err != nil || !ref.Match(want, o.V) {
+				if o.Panicked || o.Err != nil || !ref.Match(want, o.V) || !exactNumbers(want, o.V) {
 					r.Violate(&mon.Violation{Workload: "number-literals", Index: i, API: api, Expr: expr, Expected: ref.Canon(want) + " (the float64 nearest to the written decimal)", Observed: o.String(), Class: "number-literals: wrong value"})
 					return
 				}
@@ -707,4 +730,34 @@ func c14(r *mon.Run) {
 			t.Nontrivial("deep:" + strconv.Itoa(i))
 		}}
 	r.Exec(quoted, raw, lit, numw, ident, wsw, pairs, after, longw, deepw)
+}
+
+// exactNumbers: every number in got is exactly (not merely nearly) the number at the same place in want.
+func exactNumbers(want, got interface{}) bool {
+	switch w := want.(type) {
+	case float64:
+		g, ok := got.(float64)
+		return ok && w == g && math.Signbit(w) == math.Signbit(g)
+	case []interface{}:
+		g, ok := got.([]interface{})
+		if !ok || len(g) != len(w) {
+			return false
+		}
+		for i := range w {
+			if !exactNumbers(w[i], g[i]) {
+				return false
+			}
+		}
+	case map[string]interface{}:
+		g, ok := got.(map[string]interface{})
+		if !ok {
+			return false
+		}
+		for k, v := range w {
+			if !exactNumbers(v, g[k]) {
+				return false
+			}
+		}
+	}
+	return true
 }
